@@ -59,9 +59,15 @@ func (m *Cert) scan(c *vnet.Cluster, n *vnet.Node) {
 		switch {
 		case p.View != d.ViewNumber:
 			m.seen[k] = "otherview"
-		case d.Header() == nil:
+		case d.Header() == nil && !d.RequestSentOrReceived():
 			m.seen[k] = "early"
 			m.inc("commits-stored-without-header")
+		case d.Header() == nil && isAMEV(c, d.BlockIndex):
+			m.seen[k] = "early" // no final header before the pre-block is processed; judged by the anti-MEV branch
+			m.inc("commits-stored-before-preblock")
+		case d.Header() == nil:
+			m.seen[k] = "after-proposal" // the proposal is known: the library could and must verify
+			m.inc("commits-stored-after-proposal-without-header")
 		default:
 			m.seen[k] = "verified"
 			m.inc("commits-stored-with-header")
@@ -79,9 +85,12 @@ func (m *Cert) scan(c *vnet.Cluster, n *vnet.Node) {
 		switch {
 		case p.View != d.ViewNumber:
 			m.seen[k] = "otherview"
-		case d.PreHeader() == nil || !hasAll || !d.RequestSentOrReceived():
+		case !d.RequestSentOrReceived():
 			m.seen[k] = "early"
 			m.inc("precommits-stored-without-preblock")
+		case d.PreHeader() == nil || !hasAll:
+			m.seen[k] = "after-proposal" // parked while transactions are missing: verified once the block is complete
+			m.inc("precommits-stored-while-transactions-missing")
 		default:
 			m.seen[k] = "verified"
 			m.inc("precommits-stored-with-preblock")
